@@ -39,15 +39,17 @@ def _tree_flags():
     try:
         src = open(os.path.join(core.REPO, "src/ompl/base/samplers/informed/src/PathLengthDirectInfSampler.cpp")).read()
     except OSError:
-        return False, False, False
+        return False, False, False, False
     r450 = re.search(r"if \(uninformedIdx_ != informedIdx_\)", src) is not None and len(re.findall(r"if \(uninformedSubSpace_\)", src)) >= 2
     r36 = "listPhsPtrs_ = allPhsPtrs_;" in src and re.search(r"for \(const auto &phsPtr : allPhsPtrs_\)", src) is not None
     r130 = re.search(r"listPhsPtrs_\.size\(\) == 1u\s*&&\s*!\(listPhsPtrs_\.front\(\)->getMinTransverseDiameter\(\) < maxCost\.value\(\)\)", src) is not None
-    return r36, r130, r450
+    # R451 (repair of finding F451, notes/C15-fix-F451.diff): an SE-typed compound must have one R^n AND one SO(n) subspace
+    r451 = "does not have exactly one R^N and one SO(2)/SO(3)" in re.sub(r'"\s*\n\s*"', "", src)
+    return r36, r130, r450, r451
 
 
-R36, R130, R450 = _tree_flags()
-HDR = "phs seed=%d" + (" restore=1" if R36 else "") + (" degfix=1" if R130 else "") + (" cfsfix=1" if R450 else "")
+R36, R130, R450, R451 = _tree_flags()
+HDR = "phs seed=%d" + (" restore=1" if R36 else "") + (" degfix=1" if R130 else "") + (" cfsfix=1" if R450 else "") + (" ctorfix=1" if R451 else "")
 # the space kinds of the sampler world: rv = RealVectorStateSpace; crv = CompoundStateSpace with ONE real-vector subspace; se2 / dubins / rs =
 # the library's SE(2) classes; se2x = an SE(2)-typed compound with the subspaces the other way round (SO2, R^2); se3
 SE2_LIKE = ("se2", "se2x", "dubins", "rs")
@@ -1020,6 +1022,25 @@ def bulk_configs(rng, tier):
     for knd in ("dubins", "rs"):
         Pg4 = {"kind": knd, "n": 2, "lo": -5.0, "hi": 5.0, "starts": [[-1.0, -1.0], [0.5, -2.0]], "goals": [[1.5, 0.5]]}
         add(Pg4, "direct", lambda cm: max(cm) * 1.15, n=N // 8, tests=("yaw",), name="%s-2x1" % knd)
+    # near-degenerate bounds c = cmin(1 + eps), eps from one ulp to 1e-6, every PHS count, both ways of choosing the bound (min: ONE thin PHS is
+    # left — the single-PHS path where keepSample is unconditional; max: a thin PHS among fatter ones — the 1/k path), 2- and 3-argument forms, the
+    # ordered wrapper, R^n / SE(2) / single-subspace compound.  The rounding of the transform is comparable with the PHS's thickness: every success
+    # must STILL have heuristic cost strictly below c on the RETURNED state (the isInAnyPhs re-test after rounding; seeded change C15-s6)
+    epss = [2.3e-16, 1e-15, 1e-14, 1e-13, 1e-12, 1e-11, 1e-10, 1e-8, 1e-6]
+    Pnd = [{"kind": "rv", "n": 2, "lo": 0.0, "hi": 20.0, "starts": [[5.0, 5.0]], "goals": [[7.5, 6.25]]},
+           {"kind": "rv", "n": 3, "lo": -50.0, "hi": 50.0, "starts": [[11.0, -7.0, 3.0]], "goals": [[12.0, -5.5, 3.25], [10.5, -7.5, 4.0]]},
+           {"kind": "rv", "n": 2, "lo": 0.0, "hi": 20.0, "starts": [[5.0, 5.0], [6.0, 4.0]], "goals": [[7.5, 6.25], [5.5, 7.0]]},
+           {"kind": "se2", "n": 2, "lo": -20.0, "hi": 20.0, "starts": [[-11.0, 3.0]], "goals": [[-9.5, 4.75]]},
+           {"kind": "crv", "n": 2, "lo": 0.0, "hi": 20.0, "starts": [[5.0, 5.0]], "goals": [[7.5, 6.25], [4.0, 8.0]]},
+           {"kind": "rv", "n": 6, "lo": -5.0, "hi": 5.0, "starts": [[1.0, -2.0, 0.5, 3.0, -1.5, 2.25]], "goals": [[1.5, -1.0, 0.25, 2.0, -1.0, 2.5]]}]
+    for k, eps in enumerate(epss):
+        for pi, P in enumerate(Pnd):
+            if tier == "quick" and (k + pi) % 2:
+                continue
+            pick = min if (k + pi) % 4 < 2 else max
+            smp = "ord-direct" if (k + 2 * pi) % 7 == 3 and eps >= 1e-12 else "direct"
+            add(P, smp, (lambda cm, eps=eps, pick=pick: pick(cm) * (1 + eps)), minfac=((lambda cm, pick=pick: pick(cm)) if (k + pi) % 3 == 0 and smp == "direct" else None),
+                n=max(N // 20, 1500), name="near-degenerate-%s-e%g" % (pick.__name__, eps))
     # cost sweep from just above the focal distance to far beyond the bounds, random problems
     facs = [1 + 1e-9, 1 + 1e-6, 1.001, 1.05, 1.5, 3.0, 30.0, 1e4]
     for i in range(18 if tier == "quick" else 60):
@@ -1892,6 +1913,8 @@ def ctor_spec(obj, ns, gs, ng, cmp_, cast, ty, subs):
                 un = i
             else:
                 return "throw=8"
+        if R451 and not ("rv" in subs and any(k in ("so2", "so3") for k in subs)):
+            return "throw=10"
         return "ok compound=1 inf=%d un=%d" % (inf, un)
     return "ok compound=1 inf=0 un=0" if subs == ["rv"] else "throw=9"
 
@@ -1908,15 +1931,15 @@ def ctor_descs(rng, quick):
     spaces = [(0, 0, "rv", []), (0, 0, "unknown", []), (0, 0, "other", [])]
     for ty in ("se2", "se3", "dubins", "rs", "unknown", "rv", "other"):
         for sb in subs_all:
-            if ty in SE_TYPES and len(sb) == 2 and all(k in ("so2", "so3") for k in sb):
-                continue   # accepted as coded with an SO(n) "informed" subspace: a 1-dimensional PHS over an angle; not driven
+            # (SE-typed compounds with two rotation subspaces are accepted as coded: finding F451; with two R^n subspaces the first one
+            # is sampled uniformly as the "uninformed" part — admissible, but rejected by the repair as well)
             spaces.append((1, 1, ty, sb))
     for sb in ([["rv"], ["rv", "so2"], ["so3", "rv"], ["rv", "rv", "so2"], ["other"]]):
         spaces.append((1, 0, "unknown", sb))
     probs = [(1, 1, 1, 1), (1, 2, 1, 3), (0, 1, 1, 1), (1, 0, 1, 1), (0, 0, 0, 0), (1, 1, 0, 1), (1, 1, 1, 0), (1, 3, 0, 0), (0, 0, 1, 1), (1, 0, 0, 0)]
     special = [(0, 0, "rv", []), (0, 0, "other", []), (1, 1, "se2", ["rv", "so2"]), (1, 1, "se2", ["so2", "rv"]), (1, 1, "se3", ["rv", "so3"]),
                (1, 1, "unknown", ["rv"]), (1, 1, "unknown", ["rv", "so2"]), (1, 0, "unknown", ["rv", "so2"]), (1, 1, "se2", ["rv", "other"]),
-               (1, 1, "dubins", ["rv", "so2", "so2"]), (1, 1, "se2", ["rv", "rv"])]
+               (1, 1, "dubins", ["rv", "so2", "so2"]), (1, 1, "se2", ["rv", "rv"]), (1, 1, "se2", ["so2", "so2"]), (1, 1, "se3", ["so3", "so2"])]
     out = []
     for sp in special:
         for pr in probs:
@@ -1960,6 +1983,11 @@ def run_glue(ck, hbin, cmpst, rng):
             what = ("the constructor accepts %s and takes subspace %s both as the informed and as the uninformed part: createFullState overwrites "
                     "the informed sample, getInformedMeasure counts the subspace twice" % (" ".join(ln.split()[5:]), f["inf"]))
             cls = "single-subspace-compound-overwritten"
+        elif o.startswith("ctor ok") and f["compound"] == "1" and d[6] in SE_TYPES and d[7][int(f["inf"])] != "rv":
+            # F451: an SE-typed compound with two rotation subspaces: the "informed" index stays at its default and points at a rotation
+            what = ("the constructor accepts the %s-typed compound space (%s) although it has no real-vector subspace: the informed subspace is subspace %s, "
+                    "a rotation — PHSs over raw angles exclude states that can improve the solution" % (d[6], ", ".join(d[7]), f["inf"]))
+            cls = "se-typed-without-real-vector-subspace"
         elif o.startswith("ctor ok") and f.get("hasun") != ("1" if (f["compound"] == "1" and f["inf"] != f["un"]) else "0"):
             what, cls = "uninformed part present=%s for %r" % (f.get("hasun"), o), "ctor-classification"
         if what:
@@ -2042,6 +2070,8 @@ def glue_lines_fail(script, out):
                 goals = vs
         elif t[0] == "ctor" and o.startswith("ctor ok") and d.get("hasun") == "1" and d.get("compound") == "1" and d.get("inf") == d.get("un"):
             return i + 1, "the constructor takes subspace %s both as the informed and as the uninformed part (createFullState overwrites the informed sample)" % d["inf"]
+        elif t[0] == "ctor" and o.startswith("ctor ok") and d.get("compound") == "1" and t[7] in SE_TYPES and t[8:][int(d["inf"])] != "rv":
+            return i + 1, "the constructor accepts an SE-typed compound space without a real-vector subspace (informed subspace %s is a rotation)" % d["inf"]
         elif t[0] in ("sup", "sup3") and d.get("found") == "1" and starts and goals and d.get("~xi", "-") != "-":
             c = bits2f(t[2] if t[0] == "sup" else t[3])
             x = fvec(d["~xi"])
@@ -2164,7 +2194,8 @@ def run(ck):
         bad += run_bulk(ck, hbin, ck.rng.fork("bulk"))
     tot = cmpst.exact + cmpst.approx
     ck.extra_cov["model_variant_selected_from_tree"] = {"restore_from_allPhsPtrs (fix 09980379c)": R36, "early_return_when_no_phs_can_improve (fix 5852532a8)": R130,
-                                                      "no_uninformed_part_when_indices_coincide (repair of F450)": R450}
+                                                      "no_uninformed_part_when_indices_coincide (fix 1d61cd7e5)": R450,
+                                                      "se_typed_compound_needs_rv_and_so (repair of F451)": R451}
     ck.extra_cov["float_fields_compared"] = tot
     ck.extra_cov["float_fields_bit_exact"] = cmpst.exact
     ck.extra_cov["bit_exact_rate"] = round(cmpst.exact / float(tot), 4) if tot else None
